@@ -20,6 +20,9 @@ EXPLANATION = (
 EXPLANATION += (
     " L2 decides direction by parameter position (roles DEST/SRC propagated from the to/from/val/return_ptr fields of the lir instructions through every helper up to VarKind::Return). L4 aggregate literals copy each component when it is evaluated (no lazily lowered component value is read after a later component ran)."
 )
+EXPLANATION += (  # round-3 supplement
+    ' L5 the host-side mirrors of the built-in enums are exactly #[repr(u8)] (payload placement agrees with the per-variant walks).'
+)
 ASSUMPTIONS = [
     "LayoutBuilder::add implements C-style layout (decided separately by its own three-line body being unchanged is NOT assumed; only the callers' agreement is decided)",
 ]
